@@ -607,8 +607,8 @@ class Glob(Generic[AnyStr]):
                 match = target
             matcher = functools.partial(self._match_literal, b=match)
         else:
-            # File match pattern
-            matcher = target.match
+            # File match pattern: the whole name has to match (`$` alone lets a final newline slip through)
+            matcher = target.fullmatch
         return matcher
 
     def _lexists(self, path: AnyStr) -> bool:
